@@ -275,3 +275,163 @@ Definition is_session (o : outcome) : bool :=
   match o with Session _ => true | _ => false end.
 
 Definition terminal (o : outcome) : reply := if is_error_class o then Error else Done.
+
+(* ------------------------------------------------------------------ selectors, as text
+   command/limit.py match_neighbor: every string of a definition ("neighbor <ip>", "<key> <value>")
+   is searched in the peer name with the regular expression (^|\s)<string>($|\s|,); \s on a str
+   is str.isspace.  The regular expression is modelled as what it is: a substring search with a
+   boundary test on both sides. *)
+Definition COMMA : Z := 44.
+Definition SP : Z := 32.
+
+(* the text at this position is `t`, followed by the end, white space or a comma: term($|\s|,) *)
+Fixpoint match_at (t name : list Z) : bool :=
+  match t with
+  | [] => match name with [] => true | c :: _ => is_space c || (c =? COMMA) end
+  | a :: t' => match name with [] => false | c :: n' => (a =? c) && match_at t' n' end
+  end.
+
+(* re.search of (^|\s)term($|\s|,): `start_ok` says the previous character allows a match to start here *)
+Fixpoint re_search_from (start_ok : bool) (t name : list Z) : bool :=
+  (start_ok && match_at t name) ||
+  match name with
+  | [] => false
+  | c :: r => re_search_from (is_space c) t r
+  end.
+
+Definition re_search (t name : list Z) : bool := re_search_from true t name.
+
+Fixpoint zeqb (a b : list Z) : bool :=
+  match a, b with
+  | [], [] => true
+  | x :: a', y :: b' => (x =? y) && zeqb a' b'
+  | _, _ => false
+  end.
+
+Definition STAR_NEIGHBOR : list Z := [110;101;105;103;104;98;111;114;32;42].  (* "neighbor *" *)
+Definition STAR_PEER : list Z := [112;101;101;114;32;42].                      (* "peer *" *)
+
+(* limit.py match_neighbor: every string of the description has to be found in the peer name;
+   the wildcard string (compared after strip()) only stands for "any address" *)
+Definition is_star (s : list Z) : bool := zeqb (strip s) STAR_NEIGHBOR || zeqb (strip s) STAR_PEER.
+
+Definition match_neighbor (description : list (list Z)) (name : list Z) : bool :=
+  forallb (fun s => is_star s || re_search s name) description.
+
+Definition match_neighbors (descriptions : list (list (list Z))) (name : list Z) : bool :=
+  match descriptions with
+  | [] => true
+  | _ => existsb (fun d => match_neighbor d name) descriptions
+  end.
+
+
+(* ------------------------------------------------------------------ groups (command/group.py)
+   `group start` opens a per-service buffer; while it is open bare announce/withdraw lines are only
+   stored (and acknowledged); `group end` parses everything and applies all of it to the peers of the
+   service, or nothing; `peer <selector> group a ; b` is the same in one line for the selected peers.
+   A sub-command is its parse result: None when it does not parse or validate.
+   (The 100000-command / 100 MiB buffer limits are not modelled.) *)
+Definition sub := option (list op).
+
+Fixpoint all_parsed (l : list sub) : option (list op) :=
+  match l with
+  | [] => Some []
+  | None :: _ => None
+  | Some o :: r => match all_parsed r with Some o' => Some (o ++ o') | None => None end
+  end.
+
+Inductive gcmd :=
+  | GStart
+  | GEnd
+  | GLine (s : sub) (outside : outcome)
+  | GInline (sel : list Z) (subs : list sub)
+  | GPlain (o : outcome).
+
+Record gstate := mkG { g_x : xstate; g_buf : option (list sub) }.
+
+Definition greply (st : gstate) (r : reply) : list reply := answer (x_ack (g_x st)) r.
+
+Definition gapply (st : gstate) (buf : option (list sub)) (sel : list Z) (ops : list op) : gstate :=
+  mkG (mkX (apply_sel sel ops (x_ribs (g_x st))) (x_ack (g_x st))) buf.
+
+Definition gexec (all : list Z) (st : gstate) (c : gcmd) : gstate * list reply :=
+  match c with
+  | GPlain o => let '(x, r) := exec (g_x st) o in (mkG x (g_buf st), r)
+  | GStart =>
+      match g_buf st with
+      | Some _ => (st, greply st Error)
+      | None => (mkG (g_x st) (Some []), greply st Done)
+      end
+  | GLine s outside =>
+      match g_buf st with
+      | Some b => (mkG (g_x st) (Some (b ++ [s])), greply st Done)
+      | None => let '(x, r) := exec (g_x st) outside in (mkG x None, r)
+      end
+  | GEnd =>
+      match g_buf st with
+      | None => (st, greply st Error)
+      | Some [] => (mkG (g_x st) None, greply st Done)
+      | Some b =>
+          match all_parsed b with
+          | Some ops => (gapply st None all ops, greply st Done)
+          | None => (mkG (g_x st) None, greply st Error)
+          end
+      end
+  | GInline sel subs =>
+      match subs with
+      | [] => (st, greply st Error)
+      | _ =>
+          match all_parsed subs with
+          | Some ops => (gapply st (g_buf st) sel ops, greply st Done)
+          | None => (st, greply st Error)
+          end
+      end
+  end.
+
+Fixpoint grun (all : list Z) (st : gstate) (cs : list gcmd) : gstate * list (list reply) :=
+  match cs with
+  | [] => (st, [])
+  | c :: r =>
+      let '(st1, a) := gexec all st c in
+      let '(st2, l) := grun all st1 r in
+      (st2, a :: l)
+  end.
+
+Definition g_ribs (st : gstate) : ribs := x_ribs (g_x st).
+
+(* ------------------------------------------------------------------ main loop and scheduler
+   reactor/loop.py `_async_main_loop`, reactor/asynchronous.py: per iteration received_async()
+   hands over at most `batch` commands (the code: one), API.process either answers at once or
+   schedules a callback, then `_run_async` awaits every queued callback in FIFO order.
+   Replies are identified by the number of their command. *)
+Inductive akind := Immediate | Scheduled.
+
+Record lstate := mkL { l_wait : list (akind * Z); l_async : list Z; l_written : list Z }.
+
+Definition process1 (st : lstate) (c : akind * Z) : lstate :=
+  match fst c with
+  | Immediate => mkL (l_wait st) (l_async st) (l_written st ++ [snd c])
+  | Scheduled => mkL (l_wait st) (l_async st ++ [snd c]) (l_written st)
+  end.
+
+(* one iteration of the main loop: received_async hands over at most `batch` commands, API.process
+   runs on each, then _run_async awaits every queued callback in FIFO order *)
+Definition iterate (batch : nat) (st : lstate) : lstate :=
+  let st1 := fold_left process1 (firstn batch (l_wait st)) (mkL (skipn batch (l_wait st)) (l_async st) (l_written st)) in
+  mkL (l_wait st1) [] (l_written st1 ++ l_async st1).
+
+Inductive lev := Arrive (k : akind) (id : Z) | Iterate.
+
+Definition lstep (batch : nat) (st : lstate) (e : lev) : lstate :=
+  match e with
+  | Arrive k id => mkL (l_wait st ++ [(k, id)]) (l_async st) (l_written st)
+  | Iterate => iterate batch st
+  end.
+
+Definition lrun (batch : nat) (st : lstate) (evs : list lev) : lstate := fold_left (lstep batch) evs st.
+
+Definition linit : lstate := mkL [] [] [].
+
+Definition arrived (evs : list lev) : list Z :=
+  flat_map (fun e => match e with Arrive _ id => [id] | Iterate => [] end) evs.
+
